@@ -33,8 +33,11 @@ def run(pid, tier, seed):
       ev = evs[p[1] - 1]
       for cl in p[2]:
         kinds = sorted({t["kind"] for t in ev.get("toks", [])})
-        chk.violation({"direction": "parse", "clause": cl, "kinds": "+".join(kinds) if cl.startswith("outside") else None},
-                      {"clause": cl, "event": ev})
+        ident = {"direction": "parse", "clause": cl, "kinds": "+".join(kinds) if cl.startswith("outside") else None}
+        if cl.startswith("outside"):
+          lists = [t for t in ev.get("toks", []) if t["kind"] in ("pylist", "qlist")]
+          ident["list_as"] = ("keyword" if all(t["kw"] for t in lists) else "positional") if lists else None
+        chk.violation(ident, {"clause": cl, "event": ev})
   for ev in evs[:: max(1, len(evs) // 3000)]:
     chk.key(json.dumps(ev.get("toks", ev.get("text"))))
   chk.sample({"text": evs[40]["text"], "got": evs[40]["got"], "python": evs[40]["py"]})
@@ -56,7 +59,7 @@ def run(pid, tier, seed):
     step = next((s for s in m["steps"] if s["route"] == where), {})
     nondef = sorted(step.get("diff", []))
     ident = {"direction": "print" if where == "RT_Str" else "text", "class": cfg["cls"], "clause": clause,
-             "fields": nondef}
+             "fields": nondef, "list_valued_option": any(str(v).startswith("l:") for v in cfg["opts"].values())}
     key = json.dumps([ident, m["cfg"], where])
     if key in seen:
       continue
